@@ -382,13 +382,23 @@ class HRDAGAnalyzer(DAGAnalyzer):
         """
         if getattr(node, "_hr_sorted", False):
             return
+        # Unnamed rules are identified by their position in the ruleset as written:
+        # fix the names before the rules are reordered.
+        if all(rule.name is None for rule in node.rules):
+            for i, rule in enumerate(node.rules):
+                rule.name = str(i + 1)
         dag = cls()
         dag.visit(node)
         dag.load_vertex()
         dag.load_edges()
         if len(dag.edges) != 0:
             dag._build_and_sort_graph("hierarchy")
-            node.rules = dag.sort_elements(node.rules)
+            ordered = dag.sort_elements(node.rules)
+            # Comparison rules compute nothing: they are not part of the dependency
+            # graph and keep their relative order after the sorted '=' rules.
+            placed = set(dag.sorting or [])
+            rest = [rule for i, rule in enumerate(node.rules, start=1) if i not in placed]
+            node.rules = ordered + rest
         node._hr_sorted = True  # type: ignore[attr-defined]
 
     def visit_HRuleset(self, node: HRuleset) -> None:
@@ -408,7 +418,12 @@ class HRDAGAnalyzer(DAGAnalyzer):
             self.visit(node.element)
         self.rules_ast = node.rules
         for rule in node.rules:
-            self.is_first_assignment = True
+            # Only '=' rules define (compute) their left code item; in a comparison rule
+            # every code item is an input.
+            comparison = rule.rule
+            if getattr(comparison, "op", None) == "when":
+                comparison = comparison.right
+            self.is_first_assignment = getattr(comparison, "op", None) == "="
             self.visit(rule)
             self.dependencies[self.number_of_statements] = self.statement_structure()
 
